@@ -42,8 +42,9 @@ func (g *gzipResponseWriter) WriteHeader(code int) {
 }
 
 func (g *gzipResponseWriter) Write(b []byte) (int, error) {
-	// Check if adding this data would exceed max buffer size
-	if g.buf.Len()+len(b) > MaxCompressionBufferSize {
+	// Check if adding this data would exceed max buffer size. Once it has, everything is
+	// streamed: data buffered after that point would never be written by Finish.
+	if g.bufferExceeded || g.buf.Len()+len(b) > MaxCompressionBufferSize {
 		// Mark as exceeded and fall back to streaming uncompressed
 		if !g.bufferExceeded {
 			g.bufferExceeded = true
